@@ -117,13 +117,20 @@ func (m *Mast) Delete(ctx context.Context, key, value interface{}) error {
 		return fmt.Errorf("savePathForRoot: %w", err)
 	}
 	m.size--
-	for m.size < m.shrinkBelowSize && m.height > 0 {
+	// the height is min(highest key layer, floor(log_bf(size-1))): undo what grow does
+	for m.height > 0 && (m.size <= m.shrinkBelowSize || m.rootHasNoKeys()) {
 		err = m.shrink(ctx)
 		if err != nil {
 			return fmt.Errorf("shrink: %w", err)
 		}
 	}
 	return nil
+}
+
+// rootHasNoKeys reports whether no key has a layer as high as the tree's height.
+func (m *Mast) rootHasNoKeys() bool {
+	node, ok := m.root.(*mastNode)
+	return m.root == nil || ok && len(node.Key) == 0
 }
 
 func findEntry(ctx context.Context, m *Mast, key, value interface{}, options *findOptions) (*mastNode, int, error) {
